@@ -203,6 +203,8 @@ func checkC02(c *Ctx) {
 	c.Floor("RECUR", 2)
 	c.Floor("NIL-DECODE", 2)
 	c.Floor("GO-CLOSE", 1)
+	c.Decides("DEFER-AFTER-CHECK: in the input layer and the commands a deferred method call on a value that a call handed back together with an error is registered after that error has been tested (the value is nil when the call failed)")
+	c.deferAfterCheck("DEFER-AFTER-CHECK", c.AllFuncs("io/utils", "io/fileutils", "cmd", "io/newick", "io/nexus", "io/phyloxml", "io/nextstrain"), "reports an error, never panics")
 	c.Floor("ERRFLOW", 5)
 	c.Floor("CONTROL", 6)
 }
